@@ -172,6 +172,7 @@ type Act struct {
 	blkReach map[*ssa.BasicBlock]string
 	recvVars map[string]Val
 	pending  []pendingAnchor
+	ordinals map[ssa.Instruction]int
 	modWhole map[string]bool
 	modObjs  map[string][]string
 }
